@@ -553,6 +553,81 @@ def runDrop (s : State) (evs : List Ev) : State := evs.foldl stepDrop s
 
 end SendQ
 
+/-! ## Part 8 — `execPublish` and a session that is registered but not yet started (C28)
+`AddPeerStream` puts the new `streamHandler` into `m.peers[tpl]` at once (replacing a live
+session of the tuple, whose announcements stay in `m.peerChannels`); `Execute` sets its `ctx` and
+queues the initial subscription set in its next pass (both under `m.mtx`). `execPublish` (under
+`m.mtx`) calls `writePacket` on whatever is registered. One (peer, link) tuple of one router. -/
+namespace Replace
+
+structure Sess where
+  started : Bool := false     -- `ctx != nil`
+  queue : List Nat := []      -- `packetCh` (message ids; 0 = the initial subscription set)
+deriving Repr, DecidableEq
+
+structure State where
+  cap : Nat                        -- `cap(packetCh)`
+  cur : Option Sess := none        -- `m.peers[tpl]`
+  announced : Bool := false        -- `tpl ∈ m.peerChannels[ch]`
+  panicked : Bool := false         -- nil dereference in the Execute goroutine (`m.mtx` stays held)
+  blockedInit : Bool := false      -- ghost: the unguarded send of the initial set found the queue full
+  skipped : List Nat := []         -- ghost: messages `writePacket` could not queue
+deriving Repr, DecidableEq
+
+inductive Ev where
+  | add                    -- `AddPeerStream` (first session, after close, or over the live session)
+  | start                  -- `Execute`, new-session region: `ctx` set, initial set queued
+  | announce (b : Bool)    -- `handleSubscriptions` for the channel
+  | publish (id : Nat)     -- `execPublish` of an accepted message of the channel (previous hop / origin elsewhere)
+  | take                   -- the session goroutine takes one packet (only a started session has one)
+  | endCur                 -- the registered session ends: tuple forgotten
+deriving Repr, DecidableEq
+
+/-- `writePacket` after the fix: an unstarted session is queued to without blocking, leaving room
+for the initial set. A started session: blocking send (enabled only while there is room). -/
+def write (c : Nat) (s : Sess) (id : Nat) : Sess × Bool :=
+  if s.started then
+    (if s.queue.length < c then ({ s with queue := s.queue ++ [id] }, true) else (s, false))
+  else
+    (if s.queue.length + 1 < c then ({ s with queue := s.queue ++ [id] }, true) else (s, false))
+
+def step (s : State) : Ev → State
+  | .add => { s with cur := some {} }
+  | .start =>
+    match s.cur with
+    | some x => if x.started then s else
+        { s with cur := some { started := true, queue := x.queue ++ [0] }
+                 blockedInit := s.blockedInit || decide (¬ x.queue.length < s.cap) }
+    | none => s
+  | .announce b => { s with announced := b }
+  | .publish id =>
+    if s.panicked || !s.announced then s else
+    match s.cur with
+    | none => s
+    | some x =>
+      let (x', ok) := write s.cap x id
+      { s with cur := some x', skipped := if ok then s.skipped else s.skipped ++ [id] }
+  | .take =>
+    match s.cur with
+    | some x => if x.started then { s with cur := some { x with queue := x.queue.drop 1 } } else s
+    | none => s
+  | .endCur => { s with cur := none, announced := false }
+
+def run (s : State) (evs : List Ev) : State := evs.foldl step s
+
+/-- before the fix: `writePacket` evaluated `s.ctx.Done()` of the unstarted session -/
+def stepPre (s : State) : Ev → State
+  | .publish id =>
+    if s.panicked || !s.announced then s else
+    match s.cur with
+    | none => s
+    | some x => if x.started then step s (.publish id) else { s with panicked := true }
+  | ev => step s ev
+
+def runPre (s : State) (evs : List Ev) : State := evs.foldl stepPre s
+
+end Replace
+
 /-! ## `handlePublish` over a whole packet (C27): the `for _, pkt := range pkts` loop -/
 
 /-- One `Packet.Publish` list: the entries are handled in order, each on the router state left
